@@ -244,7 +244,7 @@ func (c *Client) Do(ctx context.Context, req packet.Request) (packet.Response, e
 
 func (c *Client) do(ctx context.Context, data []byte, expectedLen int) ([]byte, error) {
 	if err := c.conn.SetWriteDeadline(c.timeNow().Add(c.writeTimeout)); err != nil {
-		return nil, err
+		return nil, &ClientError{Err: err}
 	}
 	if c.hooks != nil {
 		c.hooks.BeforeWrite(data)
